@@ -141,6 +141,14 @@ func (a *augmenter) Apply(cursor *astutil.Cursor) bool {
 		case goast.FieldPtrType:
 			cursor.Replace(&ast.Field{Type: dots})
 		case goast.ExprType:
+			// "..." stands for a run of elements of a list. The only
+			// place where it may be a lone expression is the header
+			// of a "for ..." statement.
+			_, forHeader := cursor.Parent().(*ast.ForStmt)
+			if cursor.Index() < 0 && !forHeader {
+				a.errf(n.Pos(), `found unexpected "..." inside %T`, cursor.Parent())
+				return false
+			}
 			cursor.Replace(dots)
 		default:
 			a.errf(n.Pos(), `found unexpected "..." inside %T`, n)
